@@ -7,6 +7,9 @@ import Gql.Proofs.Collect
 import Gql.Proofs.Bridge
 import Gql.Proofs.IncExec
 import Gql.Proofs.IncExecDefer
+import Gql.Proofs.IncExecRef
+import Gql.Proofs.IncExecRef2
+import Gql.Proofs.ExecProps
 import Gql.Exec.Values
 /-!
 # C04 — Incremental delivery reassembles to the non-incremental response
@@ -564,5 +567,95 @@ example :
         | .error _ => false)
      | none => false) = true := by
   decide +kernel
+
+open Gql.Exec Gql.Async.IncExec in
+/-- C04-6d `incExec_assemble_ref_partial`.  The open step of `incExec_assemble_full` (the tree
+the pieces fold to **is the specification's response**), proved for the document class
+`refClassDoc` (decidable):
+
+* `noDeferDoc`: no inline fragment and no fragment spread of the document — in the operations and
+  in every fragment definition — carries a `@defer` directive.  Everything else is inside the
+  class: inline fragments with and without type condition, named fragment spreads (nested,
+  repeated, cyclic, unknown), `@skip`/`@include` on fields, inline fragments and spreads, aliases,
+  overlapping response keys merged across fragments, arguments, variables, lists, interfaces and
+  unions; or
+* `fieldsOnlyDoc`: every operation selects fields only, at every depth (fragment definitions are
+  then unreachable and may contain anything, also `@defer`).
+
+For every schema, every such document, all variables and every synchronous data graph: whenever
+the executor model answers (`incExec … = some (init, pieces)`), folding the pieces into the initial
+data succeeds and gives **exactly** (same keys, same key order, same values — `=`, not only
+`SameValue`) the JSON of the `data` of `Spec.executeRequest` (GraphQL §6) on the document with
+`@defer` removed, and that response has no errors.
+
+This pins the whole recursion skeleton shared with the `@defer` case: field collection into the
+shared grouped field set with the tri-state visited map of `collect_fields_impl` (simulated by C02's
+model of `collect_fields`, then C02's refinement to CollectFields), `collect_subfields` over the
+field-details list, `build_execution_plan` of a grouped field set without defer usages (planned
+part = the whole set in its order, no new sets), `execute_fields` in key order with `Undefined`
+fields left out, `__typename`, argument coercion, `complete_value` on `null` / leaves / lists /
+objects / abstract types (`ensure_valid_runtime_type` = ResolveAbstractType).
+
+Hypothesis `hops : OpsOk ops` is C02's one law of the value layer (a variable without a run-time
+value is not coercible at a Non-Null type — `coerce_input_literal` returns `Undefined`); it is what
+makes the implementation's `should_include_node` agree with the specification's reading of
+`@skip`/`@include`; the concrete value layer satisfies it (`concrete_ops_ok`).
+
+What is missing for the full statement: documents in which some reachable inline fragment or
+spread carries `@defer`.  There the collected field-details lists carry live defer usages (and a
+fragment visited first as deferred is collected a second time), the plan cuts execution groups out,
+and `c.ref` lists an object's keys planned-part-first (`SameValue`, not `=`).  What remains to be
+shown is that the grouped field set collected with live defer usages has the keys of the one
+collected on the stripped document and, per key, a field-details list with the same first node and
+the same merged sub-selections up to repetition.  Checked per case by the driver
+(`ref=1 specerrs=0`), not proved. -/
+theorem incExec_assemble_ref_partial (ops : Ops) (s : Schema) (doc : Doc) (opName : Option Name)
+    (vars : Vars) (root : RVal) (init : J) (pieces : List Piece)
+    (hops : Gql.Exec.Refine.OpsOk ops) (hdoc : refClassDoc doc = true)
+    (h : incExec ops s doc opName vars root = some (init, pieces)) :
+    (Spec.executeRequest ops s (stripDefer doc) opName vars root).errors = [] ∧
+    ∃ ref, foldPieces init pieces = .ok ref ∧
+      toJ (Spec.executeRequest ops s (stripDefer doc) opName vars root).data = some ref := by
+  obtain ⟨c, hc, _, _, _, hfold⟩ := incExec_assemble_partial ops s doc opName vars root init pieces h
+  obtain ⟨h1, h2⟩ := incCut_ref_class hops hdoc hc
+  exact ⟨h1, c.ref, hfold, h2⟩
+
+-- Non-vacuity of 6d: `{ a ... on Query { o { y ...F } } ...F2 l { ... { x } } }` with
+-- `fragment F on T { z: x y }`, `fragment F2 on Query { a o { x } }` (overlapping keys merged across
+-- an inline fragment and two named fragments, a list of objects) is in the class (not fields only),
+-- the executor model answers on it with no pieces, and the value layer is lawful.
+open Gql.Exec Gql.Async.IncExec in
+example :
+    let sch : Schema := { types := [.object "Query" [] [⟨"a", [], .named "Int" false⟩, ⟨"o", [], .named "T" false⟩,
+                                        ⟨"l", [], .list (.named "T" false) false⟩],
+                                    .object "T" [] [⟨"x", [], .named "Int" false⟩, ⟨"y", [], .named "Int" false⟩]],
+                          query := "Query", mutation := none }
+    let f (n : Name) : Selection := .field none n [] [] []
+    let doc : Doc := {
+      ops := [{ kind := .query, name := none, vars := [], sels :=
+        [f "a", .inline (some "Query") [] [.field none "o" [] [] [f "y", .spread "F" []]],
+         .spread "F2" [], .field none "l" [] [] [.inline none [] [f "x"]]] }],
+      frags := [⟨"F", "T", [.field (some "z") "x" [] [] [], f "y"]⟩,
+                ⟨"F2", "Query", [f "a", .field none "o" [] [] [f "x"]]⟩] }
+    let t : RVal := .obj (.name "T") (fun n _ => if n = "x" then .leaf (.int 3) else .leaf (.int 4))
+    let root : RVal := .obj (.name "Query") (fun n _ =>
+      if n = "o" then t else if n = "l" then .list [t, t] else .leaf (.int 1))
+    Gql.Exec.Refine.OpsOk Concrete.ops ∧ refClassDoc doc = true ∧ fieldsOnlyDoc doc = false ∧
+    (match incExec Concrete.ops sch doc none [] root with
+     | some (i, ps) =>
+       J.eqv i (.obj [([97], .int 1),
+                      ([111], .obj [([121], .int 4), ([122], .int 3), ([120], .int 3)]),
+                      ([108], .arr [.obj [([120], .int 3)], .obj [([120], .int 3)]])]) && ps.length == 0
+     | none => false) = true := by
+  refine ⟨Gql.Exec.Refine.concrete_ops_ok, by decide, by decide, by decide +kernel⟩
+
+-- and a fields-only document whose (unreachable) fragment definition carries `@defer`
+open Gql.Exec Gql.Async.IncExec in
+example :
+    let doc : Doc := {
+      ops := [{ kind := .query, name := none, vars := [], sels :=
+        [.field none "a" [] [] [.field none "b" [] [] []]] }],
+      frags := [⟨"F", "T", [.inline none [⟨"defer", []⟩] [.field none "x" [] [] []]]⟩] }
+    refClassDoc doc = true ∧ noDeferDoc doc = false := by decide
 
 end Gql.Props.C04
